@@ -32,6 +32,7 @@ type Node struct {
 	Vals    []*Expr
 	Slots   []SlotUse
 	HasArgs bool
+	Gap     string // component: white space / comments written between ")" and the first @slot (no output)
 }
 
 func nText(s string) *Node             { return &Node{K: "text", Text: s} }
@@ -162,6 +163,7 @@ func printNode(sb *strings.Builder, n *Node) {
 		}
 		sb.WriteString(")")
 		if len(n.Slots) > 0 {
+			sb.WriteString(n.Gap)
 			for _, s := range n.Slots {
 				if s.Name == "" {
 					sb.WriteString("@slot")
